@@ -311,6 +311,12 @@ def check(prog, run):
     from .. import sides
     sides.check(prog, run, "S2", ["py_gql.validation", "py_gql.schema.schema"], 4)
 
+    # ---- K2 selection kinds
+    # a rule that counts or compares selections must see all three kinds (shared with C04.K1): SingleFieldSubscriptions counting
+    # only fields and inline fragments accepts `subscription { a ...F }`
+    from . import c04
+    c04.check_selection_dispatch(prog, run, "K2")
+
     # ---- R4 per-usage records
     r = run.rule("R4", "variable usages checked by VariablesInAllowedPositionChecker come from a container that records every "
                        "usage (appended per occurrence), not from a mapping keyed by the variable name alone", 1)
